@@ -665,6 +665,29 @@ def run(c: Check):
             c.obligations.append(dict(name="probe:" + name, kind="tie", ok=False, detail=pr["error"]))
         elif pr["first_job"] == pr["second_job"] and pr["first_path"] != pr["second_path"]:
             c.violation(key, what, dict(scenario="harness/vpk_c17/probe.py, drive_c17.probes()", observed=pr))
+    # directed scenarios in which the identifier of the task - hence its job directory - changes after the paths
+    # were generated, or paths of an earlier attempt survive
+    for name, key, what in (
+            ("marked_by_two_tasks", "C17:path-outside-job-directory:parameter-marked-by-two-tasks",
+             "Learn(model=<output of another Learn>) returning dep(self.model): marking overwrites the model's task link "
+             "after the paths were generated; the job directory is computed again without the first task"),
+            ("marked_held_by_pretask", "C17:path-outside-job-directory:marked-parameter-held-by-lightweight-task",
+             "a task returning dep(self.model) whose pre-task holds the same model (no generated parameter of its own): "
+             "the raw identifier of the pre-task, hence the task's full identifier, changes after the mark"),
+            ("marked_held_by_init_task", "C17:path-outside-job-directory:marked-parameter-held-by-lightweight-task",
+             "a task returning dep(self.model) whose init task holds the same model: same effect"),
+            ("resubmit_after_failed_sealing", "C17:path-outside-job-directory:resubmit-after-failed-sealing",
+             "submit() fails inside a generator after a sub-configuration was sealed; a parameter is corrected and the task "
+             "submitted again: the sub-configuration keeps the path generated under the identifier of the failed attempt")):
+        pr = probes.get(name) or dict(error="probe missing")
+        if "error" in pr:
+            c.obligations.append(dict(name="probe:" + name, kind="tie", ok=False, detail=pr["error"]))
+            continue
+        n = len(pr["jobdir"]["parts"])
+        bad = [p for p in pr["paths"] if not (p["root"] == pr["jobdir"]["root"] and p["parts"][:n] == pr["jobdir"]["parts"]
+                                               and len(p["parts"]) > n)]
+        if bad:
+            c.violation(key, what, dict(scenario="harness/vpk_c17/probe.py, drive_c17.probes(): " + name, observed=pr))
     pd = probes["config_default"]
     if "error" in pd:
         c.obligations.append(dict(name="probe:config-valued-default", kind="tie", ok=False, detail=pd["error"]))
